@@ -578,9 +578,14 @@ func oracleHist(seed int64, id int) CaseResult {
 			if r.Intn(3) == 0 {
 				win = Window{Start: 1_200_000, End: 1_200_000}
 			}
-			ops = append(ops, qs)
-			q, err := makeQuery(eng, st, EngineCfg{}, qs, win)
-			fq, ferr := makeQuery(newFresh(dist, st), st, EngineCfg{}, qs, win)
+			qcfg := EngineCfg{}
+			if r.Intn(5) == 0 {
+				qcfg.QueryLookback = 10 * time.Second // a per-query option must not stick to the engine
+				qs = pick(r, []string{"foo", "sum by (a) (foo)", "foo + bar"})
+			}
+			ops = append(ops, fmt.Sprintf("%s [lookback=%v]", qs, qcfg.QueryLookback))
+			q, err := makeQuery(eng, st, qcfg, qs, win)
+			fq, ferr := makeQuery(newFresh(dist, st), st, qcfg, qs, win)
 			if (err != nil) != (ferr != nil) {
 				res.Fail = fmt.Sprintf("step %d %q: creation differs from a fresh engine (%v vs %v)", step, qs, err, ferr)
 				res.Ref = strings.Join(ops, " ; ")
